@@ -1,4 +1,5 @@
 import MidoProofs.Lemmas.MetaRt
+import MidoProofs.Lemmas.Utf8
 /-!
   C09 — meta message codec accepts and preserves every documented value.
 -/
@@ -34,7 +35,7 @@ theorem bindOk {α} {x : Except Err Unit} {y : Except Err α} {r : α}
   | error e => simp [bind, Except.bind] at h
   | ok u => cases u; simpa [bind, Except.bind] using h
 
-theorem text_rt (cs : Charset) (hcs : cs ≠ .utf8) (s p : List Nat) (h : encodeText cs s = .ok p) :
+theorem text_rt (cs : Charset) (s p : List Nat) (h : encodeText cs s = .ok p) :
     (∀ b ∈ p, b < 256) ∧ decodeText cs p = .ok s := by
   cases cs with
   | latin1 =>
@@ -50,11 +51,11 @@ theorem text_rt (cs : Charset) (hcs : cs ≠ .utf8) (s p : List Nat) (h : encode
       refine ⟨fun b hb => ?_, by simp [decodeText, ha]⟩
       have := all_eq_true.mp ha b hb; simp at this; omega
     · cases h
-  | utf8 => exact absurd rfl hcs
+  | utf8 => exact encodeText_utf8_rt s p h
 
 /-- **Payload round trip.** Whatever payload a checked, normalised meta message encodes to, it
     consists of bytes and decodes back to exactly the message's attribute values. -/
-theorem C09_payload_roundtrip (cs : Charset) (hcs : cs ≠ .utf8) (m : MetaMsg)
+theorem C09_payload_roundtrip (cs : Charset) (m : MetaMsg)
     (hc : m.check = .ok ()) (hn : m.normal = true) (p : List Nat)
     (hp : metaPayload cs m = .ok p) :
     (∀ b ∈ p, b < 256) ∧ metaDecodePayload cs m.ty p = .ok m.vals := by
@@ -217,7 +218,7 @@ theorem C09_payload_roundtrip (cs : Charset) (hcs : cs ≠ .utf8) (m : MetaMsg)
       cases v with
       | str s =>
         simp only [metaPayload, MetaType.isText, if_true] at hp
-        obtain ⟨e1, e2⟩ := text_rt cs hcs s p hp
+        obtain ⟨e1, e2⟩ := text_rt cs s p hp
         exact ⟨e1, by simp only [metaDecodePayload, e2, Except.map]⟩
       | _ => simp [metaCheckAttr, checkStr] at h1
 
@@ -233,11 +234,11 @@ theorem ofByte_typeByte (t : MetaType) : MetaType.ofByte t.typeByte = some t := 
   cases t <;> rfl
 
 /-- **Round trip through `from_bytes`.** -/
-theorem C09_roundtrip_partial (cs : Charset) (hcs : cs ≠ .utf8) (m : MetaMsg)
+theorem C09_roundtrip_partial (cs : Charset) (m : MetaMsg)
     (hc : m.check = .ok ()) (hn : m.normal = true) (bs : List Nat) (h : metaBytes cs m = .ok bs) :
     metaFromBytes cs bs = .ok (.known m) ∧ ∀ b ∈ bs, b < 256 := by
   obtain ⟨p, hp, rfl⟩ := C09_form cs m bs h
-  obtain ⟨hb, hd⟩ := C09_payload_roundtrip cs hcs m hc hn p hp
+  obtain ⟨hb, hd⟩ := C09_payload_roundtrip cs m hc hn p hp
   constructor
   · simp only [metaFromBytes, cons_append, nil_append, readVlq_encVlq, if_true,
       buildMeta, ofByte_typeByte, hd, Except.map]
